@@ -69,6 +69,7 @@ def crs_definitions() -> List[Tuple[str, str]]:
         ("9473", "EPSG:9473"),
         ("32633", "EPSG:32633"),
         ("32633proj4", "+proj=utm +zone=33 +datum=WGS84 +units=m +no_defs"),
+        ("27700", "EPSG:27700"),
     ]
 
 
@@ -110,7 +111,27 @@ class Pool:
             _ = c.epsg  # the lazy slot is now a code, or None
             wide.append((lab + "+read", truth[lab], c, True))
         self.wide = wide
-        byl = {e[0]: e for e in wide}
+        self.fresh_reps = reps
+        # ---- the spelling / type dimension: near-EPSG systems in every spelling, foreign objects included
+        from .c01_spellings import NEAR_EPSG, spellings
+
+        self.spelled: List[Tuple[str, Any, Any, bool]] = []
+        self.spec_of: Dict[str, Any] = {}
+        for k, (dlab, d, near, _reg) in enumerate(NEAR_EPSG):
+            sp = spellings(dlab, d, near)
+            if k % 2 == 0:
+                # foreign objects are seen BEFORE the plain strings of the same CRS (process-global cache order)
+                sp = sorted(sp, key=lambda t: 0 if (t[0].startswith("duck") or t[0] == "rasterio") else 1)
+            for sname, mk, ident in sp:
+                lab = f"{dlab}@{sname}"
+                try:
+                    c = CRS(mk())
+                except Exception as e:  # pylint: disable=broad-except
+                    self.spec_of[lab] = (mk, ident, dlab, near, e)
+                    continue
+                self.spec_of[lab] = (mk, ident, dlab, near, None)
+                self.spelled.append((lab, self.truth_for(ident), c, False))
+        byl = {e[0]: e for e in wide + self.spelled}
         self.by_label = byl
         self.entries = [byl["none"]] + [byl[l] for l in self.BASE]          # all kinds x all pairs
         self.regional = self.entries + [byl[l] for l in self.REGIONAL]      # valid around lon 1..9, lat 1..9
@@ -122,9 +143,24 @@ class Pool:
         self._reps: List[Any] = []
         self._keep: List[Any] = []
         self._cls: Dict[int, int] = {}
-        for e in wide:
+        for e in wide + self.spelled:
             if e[2] is not None:
                 self.rec(e[2])
+
+    def truth_for(self, pobj) -> str:
+        """ground-truth class of an independent pyproj identity (exact pyproj equality)"""
+        for k, r in enumerate(self.fresh_reps):
+            if r == pobj:
+                return f"T{k}"
+        self.fresh_reps.append(pobj)
+        return f"T{len(self.fresh_reps) - 1}"
+
+    def anchors_for(self, e):
+        """what a spelled entry is paired with: no CRS, the EPSG CRS its fuzzy code names, an unrelated CRS, and the same
+        definition as a plain WKT2 string"""
+        _, _, dlab, near, _ = self.spec_of[e[0]]
+        labs = ["none", str(near), "3857", f"{dlab}@wkt2"]
+        return [self.by_label[l] for l in labs if l in self.by_label and l != e[0]]
 
     def rec(self, crs) -> str:
         if crs is None:
@@ -583,7 +619,7 @@ class Ctx:
             if tag not in (None, "-", "?empty"):
                 # "tagged with the operands' CRS": any spelling of it will do for the property (the exact choice —
                 # the first operand's — is pinned by the correspondence with the model, not here)
-                by_rec = {self.pool.rec(e[2]): e[1] for e in self.pool.wide}
+                by_rec = {self.pool.rec(e[2]): e[1] for e in self.pool.wide + self.pool.spelled}
                 R.oracle(by_rec.get(tag, "?") == truths[0], f"result-crs-tag:{name}", cdesc,
                          f"{name}: result CRS record {tag} does not denote the operands' CRS ({labels[0]})",
                          sig="tag", trivial=True)
@@ -625,6 +661,21 @@ def gen_strict(C: Ctx):
             raws, kind = [gb0["g0"], gb0["shift"]], "geobox:g0/shift"
         for ea, eb in itertools.product(wide, wide):
             C.add(name, [ea, eb], raws, kind)
+    # --- the spelling / type dimension: every strict operation between a CRS given in any spelling (foreign objects with a
+    #     fuzzy to_epsg() included) and its anchors, both operand orders
+    for name, sp in specs.items():
+        fam = name.split(".")[0]
+        if fam in ("Geometry",) or name in ("geom.intersects", "geom.unary_union", "geom.multigeom", "geom.common_crs",
+                                             "geom.unary_intersection"):
+            raws, kind = [kinds["polygon"], partners["P"]], "polygon/P"
+        elif fam == "BoundingBox" or "bbox" in name:
+            raws, kind = [(0.0, 0.0, 2.0, 2.0), (1.0, -1.0, 3.0, 1.5)], "bbox"
+        else:
+            raws, kind = [gb0["g0"], gb0["shift"]], "geobox:g0/shift"
+        for e in C.pool.spelled:
+            for a in C.pool.anchors_for(e):
+                C.add(name, [e, a], raws, kind)
+                C.add(name, [a, e], raws, kind)
     # --- every CALL FORM of every operation (keyword by the real parameter names, unbound all-keyword, operator) x every
     #     ordered pair of the base pool (+ the odd operand at every position for the stream operations)
     for name, sp in specs.items():
@@ -1077,6 +1128,90 @@ def check_conv_eq(C: Ctx):
                                  f"{name} ({fname} form): objects in different CRSs compare equal")
 
 
+# --------------------------------------------------------------------------- CRS spelling / type dimension
+def check_spellings(C: Ctx):
+    import pyproj
+    from affine import Affine
+
+    from .c01_spellings import conflicting_duck
+
+    R = C.R
+    gm, gb = C.gmod, C.gbmod
+    pool = C.pool
+    kinds, _ = shapes()
+    shp = kinds["polygon"]
+    # (1) construction: the wrapped pyproj object is exactly the independent identity of the specification
+    for lab, (mk, ident, dlab, near, err) in pool.spec_of.items():
+        case = {"spec": lab, "near_code": near}
+        if err is not None:
+            R.oracle(False, "crs-spelling-rejected", case, f"CRS({lab}) raised {err!r}")
+            continue
+        c = pool.by_label[lab][2]
+        R.oracle(c.proj == ident, "crs-spelling-identity:CRS", case,
+                 f"CRS(<{lab}>) is {str(c)[:60]!r}, not the CRS that pyproj reads from the specification itself "
+                 f"(its own text / to_wkt()); fuzzy to_epsg() of that system: {near}", sig="identity|" + lab.split("@")[1])
+        # (2) every place that takes a CRS
+        entry = {
+            "Geometry": lambda s: gm.Geometry(shp, s).crs,
+            "BoundingBox": lambda s: gm.BoundingBox(0, 0, 1, 1, crs=s).crs,
+            "GeoBox": lambda s: gb.GeoBox((4, 4), Affine(1, 0, 0, 0, -1, 4), s).crs,
+            "assign_crs": lambda s: gm.Geometry(shp, "EPSG:3857").assign_crs(s).crs,
+            "geom.point": lambda s: gm.point(0, 0, s).crs,
+            "geom.box": lambda s: gm.box(0, 0, 1, 1, s).crs,
+            "norm_crs": lambda s: __import__("odc.geo.crs", fromlist=["norm_crs"]).norm_crs(s),
+        }
+        for en, f in entry.items():
+            try:
+                with warnings.catch_warnings():
+                    warnings.simplefilter("ignore")
+                    got = f(mk())
+                ok = got is not None and got.proj == ident
+                what = f"{en}(crs=<{lab}>) carries {str(got)[:60]!r}, pyproj reads another CRS from the specification"
+            except Exception as e:  # pylint: disable=broad-except
+                ok, what = False, f"{en}(crs=<{lab}>) raised {e!r}"
+            R.oracle(ok, f"crs-spelling-identity:{en}", {**case, "entry": en}, what, sig=f"entry|{en}")
+    # (3) which attribute of a foreign object decides: three attributes naming three different CRSs
+    for w, e, st in itertools.product((True, False), repeat=3):
+        for hashable in (True, False):
+            def f(w=w, e=e, st=st, hashable=hashable):
+                d, cands = conflicting_duck(w, e, st, hashable)
+                try:
+                    c = C.CRS(d)
+                except Exception as ex:  # pylint: disable=broad-except
+                    return "ERR:" + type(ex).__name__
+                hit = [k for k, p in cands.items() if c.proj == p]
+                return hit[0] if len(hit) == 1 else "?" + ",".join(hit)
+
+            R.corr(f"c01 foreign {bool_s(w)} {bool_s(e)} {bool_s(st)}", f, sig="foreign|" + ("hashable" if hashable else "unhashable"))
+    # (4) cache poisoning: after all those objects have been seen, plain texts / codes still mean what they say
+    for lab, (mk, ident, dlab, near, err) in pool.spec_of.items():
+        spec = mk()
+        if isinstance(spec, (str, int)) and err is None:
+            try:
+                c = C.CRS(spec)
+                want = pyproj.CRS.from_epsg(spec) if isinstance(spec, int) else pyproj.CRS.from_user_input(spec)
+                ok = c.proj == want
+            except Exception as ex:  # pylint: disable=broad-except
+                ok = False
+                c = repr(ex)
+            R.oracle(ok, "crs-cache-poisoned", {"spec": lab, "text": str(spec)[:200]},
+                     f"after foreign CRS objects of the same system were used, CRS(<{lab}>) resolves to {str(c)[:60]!r}",
+                     sig="poison")
+    # (5) equality against the anchors, ground truth = exact pyproj equality of the independent identities
+    for e in pool.spelled:
+        for a in pool.anchors_for(e):
+            for x, y in ((e, a), (a, e)):
+                rx, ry = pool.rec(x[2]), pool.rec(y[2])
+                R.corr(f"c01 tageq {rx} {ry}", lambda x=x, y=y: bool_s(x[2] == y[2]), sig="tageq|spelled")
+                try:
+                    got = bool(x[2] == y[2])
+                except Exception:  # pylint: disable=broad-except
+                    got = None
+                R.oracle(got == (x[1] == y[1]), "crs-eq-ground-truth", {"a": x[0], "b": y[0]},
+                         f"CRS[{x[0]}] == CRS[{y[0]}] is {got}, pyproj says the specifications are "
+                         f"{'the same' if x[1] == y[1] else 'different'} CRS", sig="crs-eq|spelled")
+
+
 # --------------------------------------------------------------------------- numeric options in every numeric spelling
 def check_numeric_spellings(C: Ctx):
     """`tol` of overlap_roi / bounding_box_in_pixel_domain: a numpy scalar, 0-d array, int, Fraction or Decimal must
@@ -1189,6 +1324,7 @@ def run(R: Run):
         if hit:
             R.oracle(False, hit["key"], hit["case"], hit["what"])
     check_crs_eq(C)
+    check_spellings(C)
     gen_strict(C)
     run_strict(C)
     gen_bbox_exact(C)
